@@ -2,3 +2,7 @@ chk("C15", "proof",
     "Complete decision over all from/to/dx < 2^47: the real emitters (SSA of jmpToFunctionValue, jmpToOriginFunctionValue, relative, iface.jmpWithRdx; arm64/386 variants) are executed symbolically, their bytes are written into a symbolic process image and executed by an independent x86/arm64 micro-semantics; every assertion is PC∧¬φ unsat. The input domain is finite and loop-free, so unsat is a proof for the whole domain.",
     "trusted: go/ssa, symgo's translation of ~10 SSA instruction kinds, z3, the micro-semantics of the listed encodings (harness/C15/x86sem.go); addresses < 2^47; destination not inside the emitted bytes",
     "SSA->SMT symbolic execution + z3 (complete over the finite domain)", "§4 C15")
+chk("C20", "model_checking",
+    "Bounded symbolic model checking of stub.acquireFromHolder/Acquire/Write: reserve state, request sizes, mmap outcomes and addresses are symbolic; every interleaving of the atomic operations of 2 and 3 concurrent requesters is enumerated (scheduler choices are decisions of the path exploration) and every assertion (inside reserve, pairwise disjoint, exhaustion reported, Write delivers) is decided by z3 on each path. Counterexample schedules are replayed natively through an AST-instrumented overlay copy of holder.go.",
+    "trusted: go/ssa, symgo (incl. its thread scheduler and SC-atomics model), z3; mmap(2)/mprotect(2) contracts as stubs; negative sizes outside; 2-3 threads x 1 request",
+    "SSA->SMT bounded symbolic execution with symbolic schedules + z3", "§4 C20")
